@@ -64,6 +64,23 @@ def main():
         i = next(k for k, ins in enumerate(c) if ins["op"] == "add" and ins["a"][0].get("r") == "rbp" and ins["a"][1]["k"] == "imm" and ins["a"][1]["s"] == 64)
         c[i - 1], c[i] = c[i], c[i - 1]
     report("Refine: two adjacent instructions swapped", *(lambda g, w: (g, True, w))(*run_variant("swap", swap_two)))
+    # positive controls: equivalent instruction selections must be accepted (the models cover more than the backend prints)
+    def R(r): return {"k": "reg", "r": r}
+    def ret_by_pop(c):       # ret  ->  pop rcx; jmp rcx
+        i = next(k for k, ins in enumerate(c) if ins["op"] == "ret")
+        c[i:i + 1] = [{"op": "pop", "a": [R("rcx")], "q": False}, {"op": "jmp", "a": [R("rcx")], "q": False}]
+    report("Refine: `ret` rewritten to `pop rcx; jmp rcx`", *(lambda g, w: (g, False, w))(*run_variant("popjmp", ret_by_pop)))
+
+    def call_by_reg(c):      # call println_i64  ->  lea r11, [rel println_i64]; call r11   (r11 is caller-saved scratch there)
+        i = next(k for k, ins in enumerate(c) if ins["op"] == "call")
+        l = c[i]["a"][0]["l"]
+        c[i:i + 1] = [{"op": "lea", "a": [R("r11"), {"k": "rel", "l": l}], "q": False}, {"op": "call", "a": [R("r11")], "q": False}]
+    report("Refine: direct call rewritten to a call through r11", *(lambda g, w: (g, False, w))(*run_variant("callreg", call_by_reg)))
+
+    def call_wrong_reg(c):   # the same, but the register holds the address of a block of the program instead
+        i = next(k for k, ins in enumerate(c) if ins["op"] == "call")
+        c[i:i + 1] = [{"op": "lea", "a": [R("r11"), {"k": "rel", "l": "cleanup"}], "q": False}, {"op": "call", "a": [R("r11")], "q": False}]
+    report("Refine: call through a register holding another address", *(lambda g, w: (g, True, w))(*run_variant("callbad", call_wrong_reg)))
     # ------------------------------------------------------------------ stage traces (spec/TracePipeline.tla)
     tr = stages.stage_traces(art, index, names={"ex_Lists", "ex_Stream"})
     for t in tr:
